@@ -280,6 +280,17 @@ func scenING(s *sched.Sim, cfg Config, res *Result) {
 		addRaw(js.kind, ct, js.body)
 	}
 	addRaw("gql-root-typename", "application/json", `{"query": "{ __typename }"}`)
+	// root node lookups (only that the answer is well-formed and the gateway survives; what they
+	// return is the business of C01, where root lookups are an open finding)
+	for _, en := range w.EntityNames() {
+		if w.Union.Types[en] == nil {
+			continue
+		}
+		idq, _ := json.Marshal(fmt.Sprintf(`{ node(id: %q) { ... on %s { id } } }`, w.EntityID(en, 0), en))
+		addRaw("gql-node-root-id-only", "application/json", `{"query": `+string(idq)+`}`)
+		tnq, _ := json.Marshal(fmt.Sprintf(`{ node(id: %q) { __typename id } n2: node(id: "no-such-id") { id } }`, w.EntityID(en, 1)))
+		addRaw("gql-node-root-typename", "application/json", `{"query": `+string(tnq)+`}`)
+	}
 	if wf.EmptyAbstract {
 		addRaw("gql-abstract-type-without-members", "application/json", `{"query": "{ qLonely { id } }"}`)
 		addRaw("gql-abstract-type-without-members-typename", "application/json", `{"query": "{ qLonely { __typename } }"}`)
